@@ -154,6 +154,23 @@ class Session:
             self.ended_by = "cut"
             self.outcomes.append(["SENT+CUT"])
             return False
+        if kind == "cut_then_data":
+            # the control connection vanishes and, i loop iterations later, the data
+            # connection the peer had already started arrives at the passive listener
+            ck, iters = st[1], st[2]
+            p.conn.latency = 0.0
+            p.cut(ck, data=False)
+            for _ in range(iters):
+                await asyncio.sleep(0)
+            self.net.next_conn_latency = 0.0
+            try:
+                self.data = await p.open_data(self.pasv_port)
+                self.outcomes.append(["CUT", "CONNECTED"])
+            except OSError:
+                self.outcomes.append(["CUT", "REFUSED"])
+            self.alive = False
+            self.ended_by = "cut"
+            return False
         raise ValueError(f"unknown step {st!r}")
 
     async def _xfer(self, verb, arg, payload_len=None, connect="before", salt=0, chunk=None):
